@@ -4,7 +4,6 @@ import (
 	"fmt"
 	"hash/fnv"
 	"math/rand"
-	"os"
 	"regexp"
 	"strings"
 	"time"
@@ -68,9 +67,9 @@ func ccSample(rng *rand.Rand, n *syntax.RegexNode, alpha []rune, out *[]rune, de
 	}
 	pick := func() rune { return alpha[rng.Intn(len(alpha))] }
 	member := func() rune {
-		for try := 0; try < 6; try++ {
-			if r := pick(); n.Set.CharIn(r) {
-				return r
+		for _, k := range rng.Perm(len(alpha)) {
+			if n.Set.CharIn(alpha[k]) {
+				return alpha[k]
 			}
 		}
 		if d := n.Set.VerifDump(); d != nil && !d.Negate && len(d.Ranges) > 0 {
@@ -151,8 +150,8 @@ func ccInputs(cs *wrCase, tree *syntax.RegexTree, runes []rune) [][]rune {
 	rng := rand.New(rand.NewSource(int64(h.Sum64())))
 	seen := map[rune]bool{}
 	var alpha []rune
-	for _, r := range append(append([]rune{}, runes...), 'a', 'b', '1', ' ', '\n', 'é', '_') {
-		if !seen[r] && len(alpha) < 16 {
+	for _, r := range append(append([]rune{}, runes...), 'a', 'b', '1', ' ', '\n', 'é', '_', 'A', 'Ω') {
+		if !seen[r] && len(alpha) < 18 {
 			seen[r] = true
 			alpha = append(alpha, r)
 		}
@@ -261,15 +260,71 @@ func ccFirstDiff(a, b *sx, enclosing string) string {
 	return ""
 }
 
+// ccPending is one case on its way through the driver.
+type ccPending struct {
+	ci                 int
+	tree               *syntax.RegexTree
+	gt                 *gen.GoTree
+	strict, info, node string
+	inputs             [][]rune
+}
+
+func (p *ccPending) line(cs *wrCase) string {
+	var ins []string
+	for _, t := range p.inputs {
+		ins = append(ins, ccInputSexp(t, p.gt, regexp2.RegexOptions(cs.Opts)&regexp2.RE2 != 0))
+	}
+	return core.S("c01", "compile", p.strict, p.info, p.node, fmt.Sprint(ccFuel), "("+strings.Join(ins, " ")+")")
+}
+
+// ccFromLean builds the environment side of a conversion (named-class predicates by id, runes of the pattern)
+// from the driver's answer, for a tree gen.FromGoTree rejects: the category names in id order and the
+// printed pattern. nil when a category has no predicate in the harness.
+func ccFromLean(names, pat *sx) *gen.GoTree {
+	g := &gen.GoTree{Sexp: sxRender(pat), Named: map[int]func(rune) bool{}}
+	for i, nm := range names.args() {
+		b := make([]byte, len(nm.list))
+		for k, x := range nm.list {
+			b[k] = byte(x.int())
+		}
+		pr := gen.CatPredicate(string(b))
+		if pr == nil {
+			return nil
+		}
+		g.Named[100+i] = pr
+	}
+	var walk func(n *sx)
+	walk = func(n *sx) {
+		if n.leaf {
+			return
+		}
+		switch n.head() {
+		case "one", "notone":
+			if len(n.list) > 1 {
+				g.Runes = append(g.Runes, rune(n.list[1].int()))
+			}
+			return
+		case "base":
+			if len(n.list) > 2 {
+				for _, r := range n.list[2].list {
+					for _, x := range r.list {
+						g.Runes = append(g.Runes, rune(x.int()))
+					}
+				}
+			}
+			return
+		}
+		for _, c := range n.list {
+			walk(c)
+		}
+	}
+	walk(pat)
+	return g
+}
+
 func ccCheck(c *core.Ctx, cases []wrCase) []core.Outcome {
 	outs := make([]core.Outcome, len(cases))
-	type pending struct {
-		ci     int
-		gt     *gen.GoTree
-		inputs [][]rune
-		line   string
-	}
-	var pend []pending
+	var pend []*ccPending
 	var lines []string
 	for ci := range cases {
 		cs := &cases[ci]
@@ -281,20 +336,13 @@ func ccCheck(c *core.Ctx, cases []wrCase) []core.Outcome {
 			o.Buckets = append(o.Buckets, "parse-error")
 			continue
 		}
-		info, node := wrInfo(tree), wrNode(tree.Root, map[string]bool{})
-		strict := regexp2.RegexOptions(cs.Opts)&(regexp2.RE2|regexp2.ECMAScript) != 0
-		gt := gen.FromGoTree(tree)
-		p := pending{ci: ci, gt: gt}
-		var ins []string
-		if gt.Unsupported == "" && !gt.RTL {
-			p.inputs = ccInputs(cs, tree, gt.Runes)
-			for _, t := range p.inputs {
-				ins = append(ins, ccInputSexp(t, gt, regexp2.RegexOptions(cs.Opts)&regexp2.RE2 != 0))
-			}
+		p := &ccPending{ci: ci, tree: tree, info: wrInfo(tree), node: wrNode(tree.Root, map[string]bool{}),
+			strict: core.SBool(regexp2.RegexOptions(cs.Opts)&(regexp2.RE2|regexp2.ECMAScript) != 0), gt: gen.FromGoTree(tree)}
+		if p.gt.Unsupported == "" && !p.gt.RTL {
+			p.inputs = ccInputs(cs, tree, p.gt.Runes)
 		}
-		p.line = core.S("c01", "compile", core.SBool(strict), info, node, fmt.Sprint(ccFuel), "("+strings.Join(ins, " ")+")")
 		pend = append(pend, p)
-		lines = append(lines, p.line)
+		lines = append(lines, p.line(cs))
 	}
 	res, err := c.RunDriver(lines)
 	if err != nil {
@@ -303,79 +351,30 @@ func ccCheck(c *core.Ctx, cases []wrCase) []core.Outcome {
 		}
 		return outs
 	}
-	for pi, p := range pend {
-		o := &outs[p.ci]
-		cs := &cases[p.ci]
-		if os.Getenv("CC_DEBUG") != "" {
-			defer func(o *core.Outcome, cs *wrCase, p pending) {
-				fmt.Fprintf(os.Stderr, "DBG\t%q\t%d\t%s\t%s\n", cs.Pattern, cs.Opts, strings.Join(o.Buckets, ","), p.gt.Unsupported)
-			}(o, cs, p)
-		}
-		fail := func(kind, key, sum, exp, got string) {
+	failOn := func(p *ccPending) func(kind, key, sum, exp, got string) {
+		o, cs := &outs[p.ci], &cases[p.ci]
+		return func(kind, key, sum, exp, got string) {
 			if o.Fail == nil {
 				o.Fail = &core.Failure{Kind: kind, Key: key, Summary: fmt.Sprintf("%s: pattern %q opts %d", sum, cs.Pattern, cs.Opts), Expected: exp, Got: got}
 			}
 		}
-		ans, err := parseSx(res[pi])
-		if err != nil || ans.head() != "cc" || len(ans.args()) < 2 {
-			fail("correspondence-break", "Cc:answer", "the Lean driver did not answer the request", "(cc …)", res[pi]+" for "+p.line)
-			continue
+	}
+	// readAnswer: the class, the printed pattern, the category names and the runs of `(cc class pat (names …) run…)`
+	readAnswer := func(p *ccPending, line string) (cls, pat, names *sx, runs []*sx, ok bool) {
+		ans, err := parseSx(line)
+		if err != nil || ans.head() != "cc" || len(ans.args()) < 3 || ans.args()[2].head() != "names" {
+			failOn(p)("correspondence-break", "Cc:answer", "the Lean driver did not answer the request", "(cc …)", line+" for "+p.line(&cases[p.ci]))
+			return nil, nil, nil, nil, false
 		}
-		args := ans.args()
-		cls, leanPat := args[0], args[1]
-		covered := cls.head() == "covered"
-		what := ""
-		if len(cls.args()) == 1 {
-			what = cls.args()[0].atom
-		}
-		if covered {
-			o.Buckets = append(o.Buckets, "covered:"+what)
-			o.Nontrivial = true
-		} else {
-			o.Buckets = append(o.Buckets, "notcovered:"+what)
-		}
-		leanNone := leanPat.leaf && leanPat.atom == "none"
-		// (b) the translation
-		if p.gt.Unsupported != "" {
-			short := ccShort(p.gt.Unsupported)
-			o.Buckets = append(o.Buckets, "go-unsupported:"+short)
-			if !leanNone {
-				// known difference: the model's tree does not carry what FromGoTree rejects here
-				o.Buckets = append(o.Buckets, "lean-pattern-go-unsupported:"+short)
-			}
-			if covered {
-				o.Buckets = append(o.Buckets, "covered-go-unsupported:"+short)
-			}
-			continue
-		}
-		goPat, gerr := parseSx(p.gt.Sexp)
-		if gerr != nil {
-			fail("correspondence-break", "Cc:go-sexp", "gen.FromGoTree built an unreadable S-expression", "", p.gt.Sexp)
-			continue
-		}
-		if leanNone {
-			if covered {
-				fail("correspondence-break", "Cc:covered-without-pattern", "the tree is in the fragment but toPatRoot gives none", p.gt.Sexp, res[pi])
-			} else {
-				o.Buckets = append(o.Buckets, "lean-none:"+what)
-			}
-			continue
-		}
-		if d := ccFirstDiff(leanPat, goPat, "top"); d != "" {
-			fail("correspondence-break", "Cc:topat:"+d, "Compile.toPatRoot and gen.FromGoTree translate the engine's tree differently", sxRender(leanPat), sxRender(goPat))
-			continue
-		}
-		if !covered {
-			continue
-		}
-		if strings.Contains(p.gt.Sexp, "(look 1 ") {
-			o.Buckets = append(o.Buckets, "covered-with-lookbehind:"+what)
-		}
-		// 2. both sides of the statement inside Lean, and the specification against the engine
-		runs := args[2:]
+		a := ans.args()
+		return a[0], a[1], a[2], a[3:], true
+	}
+	// 2. both sides of the statement inside Lean (runs), and the specification against the engine
+	sanity := func(p *ccPending, runs []*sx) {
+		o, cs, fail := &outs[p.ci], &cases[p.ci], failOn(p)
 		if len(runs) != len(p.inputs) {
-			fail("correspondence-break", "Cc:answer", "the Lean driver did not run every input", fmt.Sprint(len(p.inputs)), res[pi])
-			continue
+			fail("correspondence-break", "Cc:answer", "the Lean driver did not run every input", fmt.Sprint(len(p.inputs)), fmt.Sprint(len(runs)))
+			return
 		}
 		copts := []regexp2.CompileOption{regexp2.RegexOptions(cs.Opts)}
 		if cs.Order {
@@ -384,13 +383,13 @@ func ccCheck(c *core.Ctx, cases []wrCase) []core.Outcome {
 		re, cerr := safeCompile(cs.Pattern, copts...)
 		if cerr != nil || re == nil {
 			o.Buckets = append(o.Buckets, "engine-compile-error")
-			continue
+			return
 		}
 		re.MatchTimeout = 2 * time.Second
-		// a case-insensitive backreference: the statement's environments (toLower = id, no fold rows) make both
-		// models compare exactly, the engine folds — the models are still compared with each other
 		engine := true
 		if ccCiRef.MatchString(p.gt.Sexp) {
+			// a case-insensitive backreference: the statement's environments (toLower = id, no fold rows) make both
+			// models compare exactly, the engine folds — the models are still compared with each other
 			engine = false
 			o.Buckets = append(o.Buckets, "engine-skipped:ci-ref")
 		} else if regexp2.RegexOptions(cs.Opts)&regexp2.ECMAScript != 0 && strings.Contains(p.gt.Sexp, "(ref ") {
@@ -403,7 +402,7 @@ func ccCheck(c *core.Ctx, cases []wrCase) []core.Outcome {
 			atts := runs[ii]
 			if atts.leaf || len(atts.list) != len(text)+1 {
 				fail("correspondence-break", "Cc:answer", "the Lean driver did not run every position", fmt.Sprint(len(text)+1), sxRender(atts))
-				break
+				return
 			}
 			for i, a := range atts.list {
 				o.Buckets = append(o.Buckets, "sanity-attempts")
@@ -454,15 +453,106 @@ func ccCheck(c *core.Ctx, cases []wrCase) []core.Outcome {
 			}
 		}
 	}
+	var again []*ccPending
+	var lines2 []string
+	for pi, p := range pend {
+		o, fail := &outs[p.ci], failOn(p)
+		cls, leanPat, names, runs, ok := readAnswer(p, res[pi])
+		if !ok {
+			continue
+		}
+		covered := cls.head() == "covered"
+		what := ""
+		if len(cls.args()) == 1 {
+			what = cls.args()[0].atom
+		}
+		if covered {
+			o.Buckets = append(o.Buckets, "covered:"+what)
+			o.Nontrivial = true
+		} else {
+			o.Buckets = append(o.Buckets, "notcovered:"+what)
+		}
+		leanNone := leanPat.leaf && leanPat.atom == "none"
+		if !leanNone && strings.Contains(sxRender(leanPat), "(look 1 ") && covered {
+			o.Buckets = append(o.Buckets, "covered-with-lookbehind:"+what)
+		}
+		// (b) the translation
+		if p.gt.Unsupported != "" {
+			short := ccShort(p.gt.Unsupported)
+			o.Buckets = append(o.Buckets, "go-unsupported:"+short)
+			if !leanNone {
+				// known difference: the model's tree does not carry what FromGoTree rejects here
+				o.Buckets = append(o.Buckets, "lean-pattern-go-unsupported:"+short)
+			}
+			if covered {
+				// the theorems speak about this tree: run both sides on the model's own translation
+				o.Buckets = append(o.Buckets, "covered-go-unsupported:"+short)
+				if g := ccFromLean(names, leanPat); g != nil && !leanNone {
+					p.gt = g
+					p.inputs = ccInputs(&cases[p.ci], p.tree, g.Runes)
+					again = append(again, p)
+					lines2 = append(lines2, p.line(&cases[p.ci]))
+				}
+			}
+			continue
+		}
+		goPat, gerr := parseSx(p.gt.Sexp)
+		if gerr != nil {
+			fail("correspondence-break", "Cc:go-sexp", "gen.FromGoTree built an unreadable S-expression", "", p.gt.Sexp)
+			continue
+		}
+		if leanNone {
+			if covered {
+				fail("correspondence-break", "Cc:covered-without-pattern", "the tree is in the fragment but toPatRoot gives none", p.gt.Sexp, res[pi])
+			} else {
+				o.Buckets = append(o.Buckets, "lean-none:"+what)
+			}
+			continue
+		}
+		if d := ccFirstDiff(leanPat, goPat, "top"); d != "" {
+			fail("correspondence-break", "Cc:topat:"+d, "Compile.toPatRoot and gen.FromGoTree translate the engine's tree differently", sxRender(leanPat), sxRender(goPat))
+			continue
+		}
+		if covered {
+			sanity(p, runs)
+		}
+	}
+	if len(again) > 0 {
+		res2, err := c.RunDriver(lines2)
+		if err != nil {
+			failOn(again[0])("correspondence-break", "driver-error", "the Lean driver could not evaluate the model: "+err.Error(), "", "")
+			return outs
+		}
+		for pi, p := range again {
+			if _, _, _, runs, ok := readAnswer(p, res2[pi]); ok {
+				outs[p.ci].Buckets = append(outs[p.ci].Buckets, "sanity-on-lean-translation")
+				sanity(p, runs)
+			}
+		}
+	}
 	return outs
+}
+
+// ccCorpus: leg Wr's corpus, and patterns whose named classes are met in an order that differs from their
+// order in the pattern text or are shared between sets (the ids are handed out in order of first use).
+func ccCorpus() []wrCase {
+	cs := wrCorpus()
+	for _, p := range []string{`\w`, `\d`, `\p{Lu}`, `[\w-[a]]`, `\P{L}`, `\w\d\p{Lu}[\w-[a]]\P{L}`, `\d\w\d\s\w`, `[\p{Lu}-[\p{Ll}\d]]\d\w`,
+		`[\d\p{Lu}-[\w-[\s\p{Ll}]]]\s\p{Ll}`, `(?:\p{Lu}|\d)+\P{Lu}\D\W\S`, `(?=\d)\w(?<!\s)`, `(?<=\d\w)\s`, `(\w)(?(1)\d|\s)`, `[\s\S]\d`,
+		`\p{IsGreek}\p{Lu}`, `[^\W\d]\d`, `\p{L}*?\p{Nd}{2,3}[\p{L}\p{Nd}]`, `(?>\s+)\w*\b\d`} {
+		cs = append(cs, wrCase{Pattern: p, Source: "corpus"}, wrCase{Pattern: p, Opts: int32(regexp2.RE2), Source: "corpus"},
+			wrCase{Pattern: p, Opts: int32(regexp2.RightToLeft), Source: "corpus"}, wrCase{Pattern: p, Opts: int32(regexp2.ECMAScript), Source: "corpus"},
+			wrCase{Pattern: p, Opts: int32(regexp2.IgnoreCase), Source: "corpus"})
+	}
+	return cs
 }
 
 // ccLeg registers leg Cc under the calling property.
 func ccLeg(c *core.Ctx, quick, thorough int) {
 	core.RunLeg(c, core.Leg[wrCase]{
 		Name: "Cc", Kind: "correspondence(compile-correctness tie)",
-		Rule: "patterns and option sets of leg Wr (same generator and corpus). For each: syntax.Parse; the root, (Captop, Capnumlist, Caps, RightToLeft) and the RE2|ECMAScript bit go to the Lean driver, which answers (a) the coverage class: the smallest k with Compile.InFrag k (the fragment of theorem compile_correct_T<k>), or the first thing in a pre-order walk that keeps the tree outside; (b) Compile.toPatRoot as an S-expression, which must equal the one gen.FromGoTree builds for the same tree (named-class ids in order of first use included) — trees FromGoTree rejects are bucketed; (c) for covered trees, on 3-4 inputs derived from the tree (≤ 8 runes, would-be matches, near misses, context) and EVERY start position (\\G there): VM.run on Writer.emit (sets read through Compile.readSet on the specification's environment, word characters and named-class rows from Go's unicode tables) against Spec.attempt on toPat — matched, the live prefix of every capture slot = slotLog, final text position; the specification's verdict and group 0 span must also equal regexp2's VerifAttemptAt on the compiled pattern. non-trivial = covered; distinct by (options, pattern)",
-		Corpus: wrCorpus(), N: c.N(quick, thorough), Gen: wrGen, Check: ccCheck, Batch: 500,
+		Rule: "patterns and option sets of leg Wr (same generator and corpus). For each: syntax.Parse; the root, (Captop, Capnumlist, Caps, RightToLeft) and the RE2|ECMAScript bit go to the Lean driver, which answers (a) the coverage class: the smallest k with Compile.InFrag k (the fragment of theorem compile_correct_T<k>), or the first thing in a pre-order walk that keeps the tree outside; (b) Compile.toPatRoot as an S-expression, which must equal the one gen.FromGoTree builds for the same tree (named-class ids in order of first use included) — trees FromGoTree rejects are bucketed (a covered one among them gets its environment rows from the category names the driver reports and is run in a second request); (c) for covered trees, on 3-4 inputs derived from the tree (≤ 8 runes, would-be matches, near misses, context) and EVERY start position (\\G there): VM.run on Writer.emit (sets read through Compile.readSet on the specification's environment, word characters and named-class rows from Go's unicode tables) against Spec.attempt on toPat — matched, the live prefix of every capture slot = slotLog, final text position; the specification's verdict and group 0 span must also equal regexp2's VerifAttemptAt on the compiled pattern (not compared for case-insensitive backreferences and for backreferences under ECMAScript: the statement's environment has toLower = id and ecma = false; attempts that exhaust the fuel of 20000 iterations are bucketed). non-trivial = covered; distinct by (options, pattern)",
+		Corpus: ccCorpus(), N: c.N(quick, thorough), Gen: wrGen, Check: ccCheck, Batch: 500,
 	})
 }
 
